@@ -429,7 +429,12 @@ func (m *TCPMuxDefault) getConn(ufrag string, isIPv6 bool, local net.IP) (val *t
 	return
 }
 
-const streamingPacketHeaderLen = 2
+const (
+	streamingPacketHeaderLen = 2
+	maxStreamingPacketLen    = 0xFFFF
+)
+
+var errStreamingPacketTooLarge = errors.New("packet too large for RFC 4571 framing")
 
 // readStreamingPacket reads 1 packet from stream
 // read packet  bytes https://tools.ietf.org/html/rfc4571#section-2
@@ -470,6 +475,12 @@ func readStreamingPacket(conn net.Conn, buf []byte) (int, error) {
 }
 
 func writeStreamingPacket(conn net.Conn, buf []byte) (int, error) {
+	// The RFC 4571 length header is 16 bits wide: a longer packet cannot be
+	// framed and must not be sent with a truncated length.
+	if len(buf) > maxStreamingPacketLen {
+		return 0, errStreamingPacketTooLarge
+	}
+
 	bufCopy := make([]byte, streamingPacketHeaderLen+len(buf))
 	binary.BigEndian.PutUint16(bufCopy, uint16(len(buf))) //nolint:gosec // G115
 	copy(bufCopy[2:], buf)
